@@ -218,8 +218,18 @@ func (c07) Check(out *sim.Outcome, ri *RunInfo) []Violation {
 			for _, h := range cs.Driver.Handed {
 				handed[h.Resp] = true
 			}
+			// ... unless it could no longer change the result: once the returned path ends with the
+			// destination at TTL d, a response for d or above cannot (the path ends at d, and a
+			// destination entry is never replaced)
+			destTTL := 0
+			if n := len(cs.Resp); n > 0 && cs.Resp[n-1] != nil && cs.Resp[n-1].IsDest {
+				destTTL = int(cs.Resp[n-1].TTL)
+			}
 			for ri, r := range c.Script.Responses {
 				if handed[ri] {
+					continue
+				}
+				if destTTL > 0 && r.TTL >= destTTL {
 					continue
 				}
 				var sent *sim.DrvSend
